@@ -138,6 +138,16 @@ class LenCheck:
                     return [nb]
                 if tgt in nb:
                     del nb[tgt]
+                # a local holding a folded integer (e.g. `hdr_len = self.HDR_LEN`) can serve as a bound later
+                try:
+                    val = self.ev(mod, v)
+                    if isinstance(val, int) and not isinstance(val, bool):
+                        self.env[tgt] = val
+                    elif tgt in self.env and tgt not in self.scen:
+                        del self.env[tgt]
+                except (Unknown, Raised):
+                    if tgt in self.env and tgt not in self.scen:
+                        del self.env[tgt]
                 return [nb]
             return [bufs]
         if isinstance(st, ast.Expr):
